@@ -497,3 +497,6 @@ N("C03", "constructor re-parents through self.children", NODE, "        if child
 N("C20", "encoder arms swapped", JS, "        if isinstance(node, Node):\n            return node_to_dict(node)\n        return json.JSONEncoder.default(self, node)\n", "        if not isinstance(node, Node):\n            return json.JSONEncoder.default(self, node)\n        return node_to_dict(node)\n")
 N("C14", "chr hit appended in the else clause", CHRF, "        except (ValueError, UnicodeEncodeError):\n            continue\n        out.append(Node(\"string\", character, \"function.chr\", *match.span()))\n", "        except (ValueError, UnicodeEncodeError):\n            pass\n        else:\n            out.append(Node(\"string\", character, \"function.chr\", *match.span()))\n")
 N("C01", "closing delimiter looked up in a constant table", SH, "                if bound == b\"'(\":\n                    # In a cmd FOR loop, find the end paren\n                    end = data.find(b\"')\", start)\n                elif bound == b'\"':\n                    # In a double quoted string, find the end quote\n                    end = data.find(b'\"', start)\n                else:\n                    # In a single quoted string, find the end quote\n                    end = data.find(b\"'\", start)\n", "                end = data.find({b\"'(\": b\"')\", b'\"': b'\"', b\"'\": b\"'\"}[bound], start)\n")
+PEF2 = D + "pe_file.py"
+B("C11", "pe_size from the last section (seed s47)", PEF2, "        return max((section.PointerToRawData + section.SizeOfRawData for section in pe.sections), default=0)", "        if not pe.sections:\n            return 0\n        last_section = pe.sections[-1]\n        return last_section.PointerToRawData + last_section.SizeOfRawData", "R7-pe-extent")
+N("C11", "pe_size as an accumulating loop", PEF2, "        return max((section.PointerToRawData + section.SizeOfRawData for section in pe.sections), default=0)", "        size = 0\n        for section in pe.sections:\n            size = max(size, section.PointerToRawData + section.SizeOfRawData)\n        return size")
